@@ -1,8 +1,9 @@
 SPECIFICATION TSpec
 CONSTANTS NB = 12
-          NID = 3
+          NID = 8
+          Wide = TRUE
           MaxBatch = 5
-INVARIANTS TypeOK IdentityNeverStored IdentityAlwaysPresent
+INVARIANTS TypeOK IdentityNeverStored IdentityAlwaysPresent IdentityInlined
 CONSTRAINT TraceConstraint
 POSTCONDITION TracePost
 CHECK_DEADLOCK FALSE
